@@ -312,7 +312,12 @@ def execute(acc, tasks, schedule, origin, judge=True):
         # (an implementation may hand one frame to the transport in several writes)
         writes = [fr for _, fr in s.writer.written]
         frames, rest = ref_split_stream(b"".join(writes))
-        if rest:
+        lost_early = s.failed or s.eof_fed or any(t.startswith("X:") for t in tasks)
+        if rest and lost_early and rest.startswith(b"8=FIX") and len(frames) > 0:
+            # the connection went away while a frame was being handed over in pieces: a truncated LAST frame on a dead
+            # connection corrupts nothing
+            acc.klass("truncated-last-frame-on-dead-connection-FREE")
+        elif rest:
             bad("wire-malformed/stream", f"after {len(frames)} well-formed frames the byte stream continues with {rest[:120]!r} ({len(rest)} B), which is not a frame")
             frames = [fr for fr in writes if not ref_check_frame(fr)]
         sent = {}
